@@ -99,7 +99,15 @@ func runC12(c *harness.Case) {
 		return false
 	}
 	nSteps := 40 + r.Intn(80)
+	// every 10th case the clients send a lease id of 1 with their creates and updates, and the script pauses once for
+	// 2.2 s half-way (longer than one second on every engine's clock): kubebrain has no leases, an engine with native
+	// TTL must not behave differently from one without
+	leased := c.Index%10 == 7
 	for s := 0; s < nSteps; s++ {
+		if leased && s == nSteps/2 {
+			time.Sleep(2200 * time.Millisecond)
+			c.Stat("scripts_with_lease_ids_and_a_pause", 1)
+		}
 		key := harness.Prefix + keys[r.Intn(len(keys))]
 		live, latest := m.Live(key), m.Latest(key)
 		x := r.Intn(100)
@@ -129,6 +137,9 @@ func runC12(c *harness.Case) {
 				case z < 4:
 					op.Exp = engs[0].n.Start + 1
 				}
+			}
+			if leased && op.Kind != "delete" {
+				op.Lease = 1
 			}
 			if latest == nil && op.Kind != "create" && op.Exp != 0 {
 				nMissingFail++
